@@ -334,6 +334,16 @@ Definition world_of (legacy persist : bool) (root : str) (ri : run_info) (inputs
   do fl <- mapM (fun nd => out_files legacy persist (fst nd) (snd nd)) (combine (seq 0 (length outs)) outs);
   Ok {| w_root := root; w_files := w_files w0 ++ flat_map fst fl; w_live := flat_map snd fl |}.
 
+(* A run into a folder that already holds an earlier run.  cleanup=True: _cleanup_run_folder (shutil.rmtree) empties
+   the folder first; the manager processes of earlier runs whose results are still referenced stay alive. *)
+Definition cleanup_folder (w : world) : world := with_files w [].
+
+Definition world_after_cleanup (w0 : world) (legacy persist : bool) (ri : run_info) (inputs : list (str * pyv))
+  (defaults : pyv) (outs : list out_desc) : result world :=
+  let w1 := post_init (cleanup_folder w0) ri inputs defaults in
+  do fl <- mapM (fun nd => out_files legacy persist (fst nd) (snd nd)) (combine (seq 0 (length outs)) outs);
+  Ok {| w_root := w_root w0; w_files := w_files w1 ++ flat_map fst fl; w_live := w_live w0 ++ flat_map snd fl |}.
+
 (* ================================================================================================= *)
 (* RunInfo.create for a map request (Model/MapRun.v) and the folder left by its run.                   *)
 
